@@ -64,13 +64,19 @@ DSPEC = {   # letter -> molecule name, start atoms, end atoms
     'Z': ('ZMOL', _atoms('Z', 'PCG', 2), None),
 }
 DISCOVERABLE = ('P', 'Q', 'R')
+# file-name stem per species letter: R's files carry a version tag, i.e. a SECOND dot in the base name (R.v2_cg.itp)
+STEM = {'R': 'R.v2'}
+
+
+def fname(s, suffix):
+    return STEM.get(s, s) + suffix
 SYSTEM_SEQ = ('P', 'W', 'Q', 'R', 'T', 'P', 'Q', 'W', 'R', 'T', 'W')
-TRUTH = {DSPEC[s][0]: {'top_CG': f'{s}_cg.itp', 'top_AA': f'{s}_aa.itp', 'coor_AA': f'{s}_aa.gro'}
+TRUTH = {DSPEC[s][0]: {'top_CG': fname(s, '_cg.itp'), 'top_AA': fname(s, '_aa.itp'), 'coor_AA': fname(s, '_aa.gro')}
          for s in DISCOVERABLE}
 VARIANTS = {
     # every candidate a user would get from `--auto dir/*`
     'B': ['P_aa.gro', 'P_aa.itp', 'P_cg.itp', 'P_one_cg.gro', 'Q_aa.gro', 'Q_aa.itp', 'Q_cg.itp',
-          'R_aa.gro', 'R_aa.itp', 'R_cg.itp', 'T_cg.itp', 'X_aa.gro', 'X_aa.itp', 'X_cg.itp', 'Z_cg.itp',
+          'R.v2_aa.gro', 'R.v2_aa.itp', 'R.v2_cg.itp', 'T_cg.itp', 'X_aa.gro', 'X_aa.itp', 'X_cg.itp', 'Z_cg.itp',
           'bad.gro', 'notes.txt', 'sys.gro', 'P_old.Itp', 'Q_backup.Gro', 'A_two_P_aa.gro'],
     # six files: one species, an orphan coordinate file, the start-only species, a malformed file
     'S': ['P_aa.gro', 'P_aa.itp', 'P_cg.itp', 'Q_aa.gro', 'T_cg.itp', 'bad.gro'],
@@ -109,11 +115,11 @@ def write_directory(d, seed, bad='count_too_big'):
     for i, (s, (name, cg, aa)) in enumerate(DSPEC.items()):
         if s == 'W':
             continue
-        put(f'{s}_cg.itp', itp_text(name, cg, _chain(len(cg))))
+        put(fname(s, '_cg.itp'), itp_text(name, cg, _chain(len(cg))))
         if aa is not None:
-            put(f'{s}_aa.itp', itp_text(name, aa, _chain(len(aa))))
+            put(fname(s, '_aa.itp'), itp_text(name, aa, _chain(len(aa))))
             pts = generic_points(len(aa), seed, tag=300 + i) * 0.4 + 2.0
-            put(f'{s}_aa.gro', gro_text([(ri, rn, an, j + 1, pts[j]) for j, (an, rn, ri) in enumerate(aa)],
+            put(fname(s, '_aa.gro'), gro_text([(ri, rn, an, j + 1, pts[j]) for j, (an, rn, ri) in enumerate(aa)],
                                         title=f'{name} end resolution'))
     recs, resid, aid = [], 0, 0
     for k, s in enumerate(SYSTEM_SEQ):
@@ -162,14 +168,14 @@ def scratch_cwd(seed, bad='count_too_big'):
 
 def triple(d, s):
     """[start topology, end coordinates, end topology] as the --mol flag takes them."""
-    return [os.path.join(d, f'{s}_cg.itp'), os.path.join(d, f'{s}_aa.gro'), os.path.join(d, f'{s}_aa.itp')]
+    return [os.path.join(d, fname(s, '_cg.itp')), os.path.join(d, fname(s, '_aa.gro')), os.path.join(d, fname(s, '_aa.itp'))]
 
 
 def remaining(variant, explicit):
     """(topology files, coordinate files) left in the two sets after the known files are removed."""
     known = set()
     for s in explicit:
-        known.update([f'{s}_cg.itp', f'{s}_aa.gro', f'{s}_aa.itp'])
+        known.update([fname(s, '_cg.itp'), fname(s, '_aa.gro'), fname(s, '_aa.itp')])
     files = [f for f in VARIANTS[variant] if f not in known]
     return ([f for f in files if f.endswith('.itp')], [f for f in files if f.endswith('.gro')])
 
@@ -410,6 +416,11 @@ class C20(Check):
         for sp in (['BMIM', 'BF4'], ['BF4']):
             u.append({'k': 'diff', 'cases': [{'k': 'diff', 'species': list(sp), 'scale': None, 'out': 'given',
                                              'npseed': 0, 'renamed_end': 1}]})
+        # a second run from the same process after an end-coordinate file was replaced under the same path
+        for sp in (['BMIM', 'BF4'], ['BMIM']):
+            for o in ('given', 'default'):
+                u.append({'k': 'diff', 'cases': [{'k': 'diff', 'species': list(sp), 'scale': 0.3, 'out': o,
+                                                 'npseed': 0, 'rerun': 1}]})
         # (b) iteration orders
         for variant in ('B', 'S'):
             sp = VARIANT_SPECIES[variant]
@@ -507,85 +518,103 @@ class C20(Check):
                 with open(os.path.join(d, 'TFB_AA.itp'), 'w') as fh:
                     fh.write('\n'.join(lines))
                 triples['BF4'][2] = 'TFB_AA.itp'
-            argv = ['gaddlemaps', p(SYS_A)]
-            for s in case['species']:
-                argv += ['--mol'] + [p(f) for f in triples[s]]
-            if case['scale'] is not None:
-                argv += ['--scale', repr(case['scale'])]
-            workdir = None
-            if case['out'] == 'given':
-                expected = os.path.join(top, 'requested', 'cli_out.gro')
-                os.mkdir(os.path.dirname(expected))
-                argv += ['-o', expected]
-            elif case['out'] == 'given_rel':
-                # a relative -o is relative to the working directory, which is not the input's folder
-                workdir = os.path.join(top, 'work')
-                os.mkdir(workdir)
-                expected = os.path.join(workdir, 'rel_out.gro')
-                argv += ['-o', 'rel_out.gro']
-            else:
-                expected = os.path.join(d, 'mapped_' + SYS_A)
+            for phase in range(2 if case.get('rerun') else 1):
+                if case.get('rerun'):
+                    case = dict(case, phase=phase)
+                if phase == 1:
+                    # SECOND command-line run from the same process after the end coordinates of BMIM were replaced
+                    # on disk under the same path (a stretched conformation): it maps what is in the files NOW
+                    for f in (expected, os.path.join(top, 'lib_out.gro')):
+                        if os.path.exists(f):
+                            os.remove(f)
+                    path = os.path.join(d, 'BMIM_AA.gro')
+                    with open(path) as fh:
+                        gl = fh.read().split('\n')
+                    nat = int(gl[1])
+                    for k in range(2, 2 + nat):
+                        xyz = [float(gl[k][20 + 8 * c:28 + 8 * c]) for c in range(3)]
+                        gl[k] = gl[k][:20] + ''.join('%8.3f' % (1.0 + 1.25 * (v - 1.0)) for v in xyz) + gl[k][44:]
+                    with open(path, 'w') as fh:
+                        fh.write('\n'.join(gl))
+                argv = ['gaddlemaps', p(SYS_A)]
+                for s in case['species']:
+                    argv += ['--mol'] + [p(f) for f in triples[s]]
+                if case['scale'] is not None:
+                    argv += ['--scale', repr(case['scale'])]
+                workdir = None
+                if case['out'] == 'given':
+                    expected = os.path.join(top, 'requested', 'cli_out.gro')
+                    os.makedirs(os.path.dirname(expected), exist_ok=True)
+                    argv += ['-o', expected]
+                elif case['out'] == 'given_rel':
+                    # a relative -o is relative to the working directory, which is not the input's folder
+                    workdir = os.path.join(top, 'work')
+                    os.makedirs(workdir, exist_ok=True)
+                    expected = os.path.join(workdir, 'rel_out.gro')
+                    argv += ['-o', 'rel_out.gro']
+                else:
+                    expected = os.path.join(d, 'mapped_' + SYS_A)
 
-            def snapshot():
-                return {os.path.relpath(os.path.join(a, f), top) for a, _, fs in os.walk(top) for f in fs}
-            before = snapshot()
-            err = None
-            try:
-                if rel:
-                    os.chdir(d)
-                elif workdir:
-                    os.chdir(workdir)
+                def snapshot():
+                    return {os.path.relpath(os.path.join(a, f), top) for a, _, fs in os.walk(top) for f in fs}
+                before = snapshot()
+                err = None
+                try:
+                    if rel:
+                        os.chdir(d)
+                    elif workdir:
+                        os.chdir(workdir)
+                    np.random.seed(case['npseed'])
+                    with patched(Alignment, 'STEPS_FACTOR', STEPS), patched(sys, 'argv', argv), quiet_stdout():
+                        cli.main()
+                except (Exception, SystemExit) as e:
+                    err = e
+                finally:
+                    os.chdir(cwd)
+                created = snapshot() - before
+                cls = f"diff/{len(case['species'])}sp/scale-{case['scale']}/{case['out']}"
+                if err is not None:
+                    R.case(case, nontrivial=False, cls=cls, outcome=f'cli-raised:{type(err).__name__}')
+                    R.violation('cli/exception', case, repr(err)[:400])
+                    return
+                want = {os.path.relpath(expected, top)}
+                if created != want:
+                    R.case(case, nontrivial=False, cls=cls, outcome='cli-wrong-files')
+                    sig = 'cli/output-not-at-expected-path' if not os.path.exists(expected) else 'cli/extra-files-created'
+                    R.violation(sig, case, f'created {sorted(created)}, expected {sorted(want)}')
+                    return
+                with open(expected, 'rb') as fh:
+                    cli_bytes = fh.read()
+                # library workflow
+                q = lambda f: os.path.join(d, f)
+                lib_out = os.path.join(top, 'lib_out.gro')
                 np.random.seed(case['npseed'])
-                with patched(Alignment, 'STEPS_FACTOR', STEPS), patched(sys, 'argv', argv), quiet_stdout():
-                    cli.main()
-            except (Exception, SystemExit) as e:
-                err = e
-            finally:
-                os.chdir(cwd)
-            created = snapshot() - before
-            cls = f"diff/{len(case['species'])}sp/scale-{case['scale']}/{case['out']}"
-            if err is not None:
-                R.case(case, nontrivial=False, cls=cls, outcome=f'cli-raised:{type(err).__name__}')
-                R.violation('cli/exception', case, repr(err)[:400])
-                return
-            want = {os.path.relpath(expected, top)}
-            if created != want:
-                R.case(case, nontrivial=False, cls=cls, outcome='cli-wrong-files')
-                sig = 'cli/output-not-at-expected-path' if not os.path.exists(expected) else 'cli/extra-files-created'
-                R.violation(sig, case, f'created {sorted(created)}, expected {sorted(want)}')
-                return
-            with open(expected, 'rb') as fh:
-                cli_bytes = fh.read()
-            # library workflow
-            q = lambda f: os.path.join(d, f)
-            lib_out = os.path.join(top, 'lib_out.gro')
-            np.random.seed(case['npseed'])
-            with patched(Alignment, 'STEPS_FACTOR', STEPS), quiet_stdout():
-                man = Manager.from_files(q(SYS_A), *[q(triples[s][0]) for s in case['species']])
-                if case.get('renamed_end'):
-                    for s in case['species']:          # attached to the species named by the START topology
-                        man.molecule_correspondence[s].end = Molecule.from_files(q(triples[s][1]), q(triples[s][2]))
-                else:
-                    man.add_end_molecules(*[Molecule.from_files(q(triples[s][1]), q(triples[s][2]))
-                                            for s in case['species']])
-                man.align_molecules()
-                if case['scale'] is None:
-                    man.calculate_exchange_maps()
-                else:
-                    man.calculate_exchange_maps(case['scale'])
-                man.extrapolate_system(lib_out)
-            with open(lib_out, 'rb') as fh:
-                lib_bytes = fh.read()
-            same = cli_bytes == lib_bytes
-            R.case(case, nontrivial=len(cli_bytes) > 100, cls=cls,
-                   outcome='identical' if same else 'differs')
-            R.traces += 1
-            if not same:
-                a, b = cli_bytes.split(b'\n'), lib_bytes.split(b'\n')
-                first = next((i for i, (x, y) in enumerate(zip(a, b)) if x != y), min(len(a), len(b)))
-                R.violation('cli/output-differs-from-library', case,
-                            f'{len(a)} vs {len(b)} lines; first difference at line {first + 1}: '
-                            f'{a[first:first + 1]} vs {b[first:first + 1]}')
+                with patched(Alignment, 'STEPS_FACTOR', STEPS), quiet_stdout():
+                    man = Manager.from_files(q(SYS_A), *[q(triples[s][0]) for s in case['species']])
+                    if case.get('renamed_end'):
+                        for s in case['species']:          # attached to the species named by the START topology
+                            man.molecule_correspondence[s].end = Molecule.from_files(q(triples[s][1]), q(triples[s][2]))
+                    else:
+                        man.add_end_molecules(*[Molecule.from_files(q(triples[s][1]), q(triples[s][2]))
+                                                for s in case['species']])
+                    man.align_molecules()
+                    if case['scale'] is None:
+                        man.calculate_exchange_maps()
+                    else:
+                        man.calculate_exchange_maps(case['scale'])
+                    man.extrapolate_system(lib_out)
+                with open(lib_out, 'rb') as fh:
+                    lib_bytes = fh.read()
+                same = cli_bytes == lib_bytes
+                R.case(case, nontrivial=len(cli_bytes) > 100, cls=cls,
+                       outcome='identical' if same else 'differs')
+                R.traces += 1
+                if not same:
+                    a, b = cli_bytes.split(b'\n'), lib_bytes.split(b'\n')
+                    first = next((i for i, (x, y) in enumerate(zip(a, b)) if x != y), min(len(a), len(b)))
+                    R.violation('cli/output-differs-from-library', case,
+                                f'{len(a)} vs {len(b)} lines; first difference at line {first + 1}: '
+                                f'{a[first:first + 1]} vs {b[first:first + 1]}')
 
     # -- (b) helpers ---------------------------------------------------------
     _spell = None        # './' : explicit files are named by another spelling of the same path
@@ -770,7 +799,7 @@ class C20(Check):
                               for s in DISCOVERABLE if s not in X)
                 R.case(desc, nontrivial=len(E) < 3, cls=cls, outcome=f'handed:{len(got)}')
                 if got != want:
-                    counts = {s: sum(1 for g in got if g[:1] == (f'{s}_cg.itp',)) for s in DISCOVERABLE}
+                    counts = {s: sum(1 for g in got if g[:1] == (fname(s, '_cg.itp'),)) for s in DISCOVERABLE}
                     if any(counts[s] for s in X):
                         sig = 'main/excluded-species-mapped'
                     elif any(counts[s] > 1 for s in DISCOVERABLE):
